@@ -170,6 +170,10 @@ class ModelFS:
     def _call(self, op, args, mutating):
         for h in self.hooks:
             h(op, args, mutating)
+        for a in args:
+            if isinstance(a, str) and '\0' in a:
+                # CPython refuses such a path before it reaches the kernel (os.path.isfile & co. answer False instead)
+                raise ValueError('embedded null byte')
 
     # ------------------------------------------------------------ kernel ops
     def stat(self, p):
